@@ -448,6 +448,22 @@ Proof.
     + intros H; inversion H; left; reflexivity.
 Qed.
 
+Lemma getitem_unfold c key :
+  getitem c key =
+  match sget key (c_view c) with
+  | Some s => Ok (ISection s)
+  | None =>
+      match master_section c with
+      | Ok (_, ms) => match sget key ms with Some e => Ok (IEntry e) | None => Err ErrEntry end
+      | Err _ =>
+          match c_fallback c with
+          | None => Err ErrSection
+          | Some f => match getitem f key with Ok i => Ok i | Err _ => Err ErrSection end
+          end
+      end
+  end.
+Proof. destruct c as [n raw ps view m [f|] vs]; reflexivity. Qed.
+
 (* when no listed profile defines (section, key): either the local lookup fails with one of the two documented
    errors, or (section unknown here, no master section) __getitem__ already answered from the fallback *)
 Lemma local_get_cases c key sn :
@@ -456,16 +472,17 @@ Lemma local_get_cases c key sn :
   (exists f e, c_fallback c = Some f /\ local_get all_off c key (Some sn) = Ok e /\
                local_get all_off f key (Some sn) = Ok e).
 Proof.
-  intros H. unfold lookup2 in H. destruct c as [n raw ps view m fb vs]. simpl in H.
-  unfold local_get at 1 2. simpl getitem. destruct (sget sn view) as [s|] eqn:E.
+  intros H. unfold lookup2 in H. unfold local_get at 1 2. rewrite getitem_unfold.
+  destruct (sget sn (c_view c)) as [s|] eqn:E.
   - left. unfold sect_get. rewrite H. exists ErrEntry. split; [right|]; reflexivity.
-  - destruct (master_section _) as [[m0 ms]|e0].
+  - destruct (master_section c) as [[m0 ms]|e0].
     + left. destruct (sget sn ms); [exists ErrSection; split; [left|]; reflexivity|exists ErrEntry; split; [right|]; reflexivity].
-    + destruct fb as [f|]; [|left; exists ErrSection; split; [left|]; reflexivity].
+    + destruct (c_fallback c) as [f|] eqn:F; [|left; exists ErrSection; split; [left|]; reflexivity].
       destruct (getitem f sn) as [i|e1] eqn:G; [|left; exists ErrSection; split; [left|]; reflexivity].
-      unfold local_get. rewrite G. destruct i as [s|e1].
+      destruct i as [s|e1].
       * destruct (sect_get s key) as [e|e2] eqn:S.
-        -- right. exists f, e. repeat split; reflexivity.
+        -- right. exists f, e. split; [reflexivity|]. split; [reflexivity|].
+           unfold local_get. rewrite G. exact S.
         -- left. exists e2. split; [|reflexivity]. unfold sect_get in S. destruct (sget key s); [discriminate|].
            inversion S. right. reflexivity.
       * left. exists ErrSection. split; [left|]; reflexivity.
@@ -548,7 +565,7 @@ Lemma reprioritised ops ps ops' name :
 Proof.
   intros N c.
   assert (P : c_profiles c = norm_profiles ps).
-  { unfold c. rewrite run_app. change (OProfiles ps :: ops') with ([OProfiles ps] ++ ops'). rewrite run_app.
+  { unfold c. rewrite run_app. change (OProfiles ps :: ops') with (([OProfiles ps] ++ ops')%list). rewrite run_app.
     rewrite run_profiles_stable; [| |exact N].
     - unfold run. simpl. rewrite refresh_profiles. destruct (fold_left _ ops _); reflexivity.
     - apply run_inv. apply run_inv. apply inv_empty. }
@@ -572,3 +589,296 @@ Qed.
 Lemma profiles_end_none_run ops name :
   last (c_profiles (run all_off ops (empty_config name))) (Some EmptyString) = None.
 Proof. apply profiles_end_none; [reflexivity|constructor|apply inv_empty]. Qed.
+
+(* ================================================================== typed accessors *)
+
+Lemma split_where_comma v :
+  split_where is_space (smap (fun a => if Ascii.eqb a comma then sp else a) v) = split_where is_sep v.
+Proof.
+  induction v as [|a r IH]; [reflexivity|]. simpl. unfold is_sep at 1.
+  destruct (Ascii.eqb a comma) eqn:E.
+  - rewrite orb_true_r. change (is_space sp) with true. simpl. rewrite IH. reflexivity.
+  - rewrite orb_false_r. destruct (is_space a); rewrite IH; reflexivity.
+Qed.
+
+Lemma as_list_is_list v : val_as_list v = val_list v.
+Proof. unfold val_as_list, val_list, py_split. rewrite split_where_comma. reflexivity. Qed.
+
+Lemma split_where_pieces p s : Forall (fun x => sall (fun a => negb (p a)) x = true) (split_where p s).
+Proof.
+  induction s as [|a r IH]; simpl; [repeat constructor|].
+  destruct (p a) eqn:E; [constructor; [reflexivity|exact IH]|].
+  destruct (split_where p r) as [|h t]; [repeat constructor; simpl; rewrite E; reflexivity|].
+  inversion IH; subst. constructor; [simpl; rewrite E; simpl; assumption|assumption].
+Qed.
+
+Lemma list_items v : Forall (fun x => nonempty x = true /\ sall (fun a => negb (is_sep a)) x = true) (val_list v).
+Proof.
+  rewrite <- as_list_is_list. unfold val_as_list. rewrite Forall_forall. intros x Hx.
+  apply filter_In in Hx. destruct Hx as [Hx Hn]. split; [exact Hn|].
+  pose proof (split_where_pieces is_sep v) as F. rewrite Forall_forall in F. apply F. exact Hx.
+Qed.
+
+Lemma partition_found c s : snd (fst (partition_on c s)) = has_char c s.
+Proof.
+  induction s as [|a r IH]; [reflexivity|]. simpl. unfold has_char in *. simpl.
+  rewrite (Ascii.eqb_sym c a). destruct (Ascii.eqb a c); [reflexivity|].
+  destruct (partition_on c r) as [[b f] t]. simpl in *. exact IH.
+Qed.
+
+Lemma dict_maps l :
+  map (fun p : string * bool * string => (fst (fst p), snd p)) (map (partition_on colon) l) =
+  map (fun i => let '(k, _, t) := partition_on colon i in (k, t)) l.
+Proof.
+  rewrite map_map. apply map_ext. intros i. destruct (partition_on colon i) as [[k f] t]. reflexivity.
+Qed.
+
+Lemma as_dict_consistent v d : val_as_dict v = Ok d -> d = val_dict v.
+Proof.
+  unfold val_as_dict, val_dict. rewrite as_list_is_list.
+  destruct (forallb _ _); [|discriminate]. intros H. inversion H. rewrite dict_maps. reflexivity.
+Qed.
+
+Lemma as_dict_defined v :
+  forallb (has_char colon) (val_list v) = true -> val_as_dict v = Ok (val_dict v).
+Proof.
+  intros H. unfold val_as_dict, val_dict. rewrite as_list_is_list.
+  assert (E : forallb (fun p : string * bool * string => snd (fst p)) (map (partition_on colon) (val_list v)) = true).
+  { rewrite forallb_forall in *. intros p Hp. apply in_map_iff in Hp. destruct Hp as [i [<- Hi]].
+    rewrite partition_found. apply H. exact Hi. }
+  rewrite E, dict_maps. reflexivity.
+Qed.
+
+(* ---- booleans *)
+Definition eight : list (string * bool) :=
+  [("0", false); ("1", true); ("false", false); ("true", true); ("no", false); ("yes", true); ("off", false); ("on", true)].
+
+Lemma bool_states_eight : bool_states = eight.
+Proof. reflexivity. Qed.
+
+Lemma eight_nodup : NoDup (map fst eight).
+Proof. simpl. repeat (constructor; [simpl; intuition discriminate|]). constructor. Qed.
+
+Lemma bool_spec v b : val_bool v = Ok b <-> In (lower v, b) eight.
+Proof.
+  unfold val_bool. rewrite bool_states_eight. split.
+  - destruct (sget (lower v) eight) eqn:E; [|discriminate]. intros H. inversion H. subst. apply sget_in. exact E.
+  - intros H. unfold sget. rewrite (in_aget _ _ _ string_eqb_spec _ _ _ eight_nodup H). reflexivity.
+Qed.
+
+Lemma bool_other v : (forall b, ~ In (lower v, b) eight) -> val_bool v = Err ErrValue.
+Proof.
+  intros H. destruct (val_bool v) as [b|e] eqn:E.
+  - exfalso. apply (H b). apply bool_spec. exact E.
+  - unfold val_bool in E. destruct (sget (lower v) bool_states); [discriminate|]. inversion E. reflexivity.
+Qed.
+
+(* ================================================================== _replace *)
+
+Lemma replace_unknown_kept f vars s :
+  (forall m, In m (matches s) -> sget (m_var m) vars = None) ->
+  replace_vars_in all_off (S f) vars None s = Ok s.
+Proof.
+  intros H. cbn [replace_vars_in]. revert H. generalize (matches s). intros l H. generalize s.
+  induction l as [|m r IH]; intros cur; [reflexivity|]. simpl.
+  rewrite (H m (or_introl eq_refl)). apply IH. intros m' Hm. apply H. right. exact Hm.
+Qed.
+
+(* ================================================================== text form, one entry line *)
+
+Lemma sall_app p a b : sall p (a ++ b) = (sall p a && sall p b)%bool.
+Proof. induction a as [|x r IH]; simpl; [reflexivity|]. rewrite IH. apply andb_assoc. Qed.
+
+Lemma sall_spaces n : sall is_space (spaces n) = true.
+Proof. induction n; simpl; [reflexivity|exact IHn]. Qed.
+
+Lemma rstrip_all_space w : sall is_space w = true -> rstrip w = EmptyString.
+Proof.
+  induction w as [|a r IH]; simpl; [reflexivity|]. intros H. apply andb_true_iff in H. destruct H as [Ha Hr].
+  rewrite (IH Hr), Ha. reflexivity.
+Qed.
+
+Lemma rstrip_app_space k w : sall is_space w = true -> rstrip (k ++ w) = rstrip k.
+Proof.
+  intros H. induction k as [|a r IH]; simpl; [apply rstrip_all_space; exact H|]. rewrite IH. reflexivity.
+Qed.
+
+Lemma rstrip_app_keep x v : rstrip v = v -> v <> EmptyString -> rstrip (x ++ v) = x ++ v.
+Proof.
+  intros Hv Hn. induction x as [|a r IH]; simpl; [exact Hv|]. rewrite IH.
+  destruct (r ++ v) eqn:E; [|reflexivity].
+  destruct r; simpl in E; [contradiction|discriminate].
+Qed.
+
+Lemma any_app p a b : sany p (a ++ b) = (sany p a || sany p b)%bool.
+Proof. induction a as [|x r IH]; simpl; [reflexivity|]. rewrite IH. apply orb_assoc. Qed.
+
+Lemma any_spaces p n : p sp = false -> sany p (spaces n) = false.
+Proof. intros H. induction n; simpl; [reflexivity|]. rewrite H. exact IHn. Qed.
+
+Lemma partition_app_nochar c a b : has_char c a = false -> partition_on c (a ++ String c b) = (a, true, b).
+Proof.
+  unfold has_char. induction a as [|x r IH]; simpl.
+  - intros _. rewrite Ascii.eqb_refl. reflexivity.
+  - intros H. apply orb_false_iff in H. destruct H as [Hx Hr]. rewrite Ascii.eqb_sym, Hx, (IH Hr). reflexivity.
+Qed.
+
+Lemma smap_id f s : sall (fun a => Ascii.eqb (f a) a) s = true -> smap f s = s.
+Proof.
+  induction s as [|a r IH]; simpl; [reflexivity|]. intros H. apply andb_true_iff in H. destruct H as [Ha Hr].
+  apply Ascii.eqb_eq in Ha. rewrite Ha, (IH Hr). reflexivity.
+Qed.
+
+Definition plain_line (k v : string) : string := pad_right key_width k ++ " = " ++ v.
+
+(* what a key must look like to be written and read back as a key *)
+Definition key_ok (k : string) : Prop :=
+  match k with
+  | EmptyString => False
+  | String a _ => a <> "["%char /\ a <> "#"%char /\ a <> ";"%char /\ is_space a = false
+  end /\ rstrip k = k /\ has_char eqsign k = false.
+Definition value_ok (v : string) : Prop :=
+  v <> EmptyString /\ lstrip v = v /\ rstrip v = v /\ has_char nl v = false.
+
+Lemma header_of_other a r : a <> "["%char -> header_of (String a r) = None.
+Proof.
+  intros H. destruct a as [[] [] [] [] [] [] [] []]; try reflexivity. exfalso. apply H. reflexivity.
+Qed.
+
+Lemma is_comment_other a r : a <> "#"%char -> a <> ";"%char -> is_comment (String a r) = false.
+Proof.
+  intros H1 H2. destruct a as [[] [] [] [] [] [] [] []]; try reflexivity; exfalso;
+    ((apply H1; reflexivity) || (apply H2; reflexivity)).
+Qed.
+
+Lemma app_assoc_s (a b c : string) : (a ++ b) ++ c = a ++ (b ++ c).
+Proof. induction a; simpl; [reflexivity|]. rewrite IHa. reflexivity. Qed.
+
+Lemma lstrip_nonspace a r : is_space a = false -> lstrip (String a r) = String a r.
+Proof. intros H. simpl. rewrite H. reflexivity. Qed.
+
+Lemma read_entry_line (cs : bool) (st : rstate) (k v sn : string) opts :
+  key_ok k -> value_ok v ->
+  r_sect st = Some sn -> sget sn (r_done st) = Some opts ->
+  let k' := if cs then k else lower k in
+  smem k' opts = false -> r_indent st = 0 ->
+  read_line cs (Ok st) (plain_line k v) =
+  Ok (RState (sset (r_done st) sn (opts ++ [(k', Some [v])])%list) (Some sn) (Some k') 0).
+Proof.
+  intros [Hk [Hkr Hke]] [Hvn [Hvl [Hvr _]]] Hs Ho k' Hm Hi.
+  destruct k as [|a kr]; [contradiction|]. destruct Hk as [Ha1 [Ha2 [Ha3 Ha4]]].
+  (* the line is already stripped *)
+  assert (Eline : plain_line (String a kr) v = String a (kr ++ spaces (key_width - String.length (String a kr)) ++ " = " ++ v)).
+  { unfold plain_line, pad_right. simpl. rewrite !app_assoc_s. reflexivity. }
+  assert (Els : lstrip (plain_line (String a kr) v) = plain_line (String a kr) v).
+  { rewrite Eline. apply lstrip_nonspace. exact Ha4. }
+  assert (Estrip : strip (plain_line (String a kr) v) = plain_line (String a kr) v).
+  { unfold strip. rewrite Els. unfold plain_line.
+    replace (pad_right key_width (String a kr) ++ " = " ++ v) with ((pad_right key_width (String a kr) ++ " = ") ++ v)
+      by (rewrite app_assoc_s; reflexivity).
+    apply rstrip_app_keep; assumption. }
+  assert (Ecom : is_comment (plain_line (String a kr) v) = false).
+  { rewrite Eline. apply is_comment_other; assumption. }
+  assert (Eind : indent_of (plain_line (String a kr) v) = 0).
+  { unfold indent_of. rewrite Els. apply Nat.sub_diag. }
+  unfold read_line. rewrite Estrip, Ecom. rewrite Eline at 1. cbv iota. try rewrite <- Eline.
+  rewrite Eind, Hs, Hi.
+  assert (Enew : new_line cs st (plain_line (String a kr) v) 0 =
+                 Ok (RState (sset (r_done st) sn (opts ++ [(k', Some [v])])%list) (Some sn) (Some k') 0)).
+  { unfold new_line. rewrite Eline at 1. rewrite header_of_other by assumption. rewrite Hs.
+    assert (Epart : partition_on eqsign (plain_line (String a kr) v) =
+                    (pad_right key_width (String a kr) ++ " ", true, " " ++ v)).
+    { unfold plain_line.
+      change (pad_right key_width (String a kr) ++ " = " ++ v)
+        with (pad_right key_width (String a kr) ++ String sp (String eqsign (" " ++ v))).
+      replace (pad_right key_width (String a kr) ++ String sp (String eqsign (" " ++ v)))
+        with ((pad_right key_width (String a kr) ++ " ") ++ String eqsign (" " ++ v))
+        by (rewrite app_assoc_s; reflexivity).
+      apply partition_app_nochar. unfold has_char, pad_right. rewrite !any_app.
+      unfold has_char in Hke. rewrite Hke. rewrite any_spaces by reflexivity. reflexivity. }
+    rewrite Epart.
+    assert (Ers : rstrip (pad_right key_width (String a kr) ++ " ") = String a kr).
+    { unfold pad_right. rewrite app_assoc_s. rewrite rstrip_app_space; [exact Hkr|].
+      rewrite sall_app, sall_spaces. reflexivity. }
+    rewrite Ers. rewrite Ho. fold k'. rewrite Hm.
+    assert (Esv : strip (" " ++ v) = v).
+    { unfold strip. simpl. rewrite Hvl. exact Hvr. }
+    rewrite Esv. reflexivity. }
+  destruct (r_opt st); [simpl; exact Enew|exact Enew].
+Qed.
+
+Lemma joined_single v : value_ok v -> joined_value [v] = v.
+Proof.
+  intros [_ [_ [Hr Hn]]]. unfold joined_value. simpl. rewrite Hr. apply smap_id.
+  unfold has_char in Hn. clear Hr. induction v as [|a r IH]; [reflexivity|].
+  cbn [sany] in Hn. cbn [sall]. apply orb_false_iff in Hn. destruct Hn as [Ha Hr].
+  rewrite (Ascii.eqb_sym a nl), Ha, Ascii.eqb_refl. apply IH. exact Hr.
+Qed.
+
+Lemma read_header_line cs st sn :
+  sn <> EmptyString -> has_char "]"%char sn = false -> is_space (match sn with String a _ => a | _ => sp end) = false ->
+  smem sn (r_done st) = false ->
+  match r_opt st with Some _ => r_indent st = 0 | None => True end ->
+  exists ind,
+  read_line cs (Ok st) ("[" ++ sn ++ "]") = Ok (RState (r_done st ++ [(sn, [])])%list (Some sn) None ind).
+Proof.
+  intros Hn Hb Hsp Hm Hi.
+  assert (Ers : rstrip (sn ++ "]") = sn ++ "]") by (apply rstrip_app_keep; [reflexivity|discriminate]).
+  assert (Estrip : strip ("[" ++ sn ++ "]") = "[" ++ sn ++ "]").
+  { unfold strip. simpl. rewrite Ers. destruct (sn ++ "]") eqn:E; [destruct sn; discriminate|reflexivity]. }
+  assert (Eh : header_of ("[" ++ sn ++ "]") = Some sn).
+  { simpl. assert (P : rpartition_aux "]" (sn ++ "]") = Some (sn, EmptyString)).
+    { clear -Hb. unfold has_char in Hb. induction sn as [|a r IH]; [reflexivity|].
+      simpl in *. apply orb_false_iff in Hb. destruct Hb as [Ha Hr]. rewrite (IH Hr). reflexivity. }
+    rewrite P. destruct sn; [contradiction|reflexivity]. }
+  assert (Ecom : is_comment ("[" ++ sn ++ "]") = false) by reflexivity.
+  assert (Eline : "[" ++ sn ++ "]" = String "[" (sn ++ "]")) by reflexivity.
+  exists (indent_of ("[" ++ sn ++ "]")).
+  unfold read_line. cbv zeta. rewrite Estrip, Ecom. rewrite Eline at 1. cbv iota.
+  assert (En : new_line cs st ("[" ++ sn ++ "]") (indent_of ("[" ++ sn ++ "]")) =
+               Ok (RState (r_done st ++ [(sn, [])])%list (Some sn) None (indent_of ("[" ++ sn ++ "]")))).
+  { unfold new_line. rewrite Eh, Hm. reflexivity. }
+  destruct (r_sect st); [|exact En]. destruct (r_opt st); [|exact En].
+  assert (Eind : indent_of ("[" ++ sn ++ "]") = 0).
+  { unfold indent_of. rewrite Eline, lstrip_nonspace by reflexivity. apply Nat.sub_diag. }
+  rewrite Hi. rewrite Eind in *. simpl. exact En.
+Qed.
+
+(* ================================================================== the deviations are real (computed witnesses) *)
+
+Definition q_only_stale := {| q_stale := true; q_fbsect := false; q_mkey := false; q_fmt := false |}.
+Definition q_only_fbsect := {| q_stale := false; q_fbsect := true; q_mkey := false; q_fmt := false |}.
+Definition q_only_mkey := {| q_stale := false; q_fbsect := false; q_mkey := true; q_fmt := false |}.
+Definition q_only_fmt := {| q_stale := false; q_fbsect := false; q_mkey := false; q_fmt := true |}.
+
+Definition w_stale_ops : list op :=
+  [OUpdate (Upd "sa" "k1" "old" None "s" []) true; ODict (Some "sa") [("k1", "new"); ("zz", "2")] "dictionary" false].
+
+Lemma stale_witness :
+  let c := run q_only_stale w_stale_ops (empty_config "cfg") in
+  c_view c <> flatten (c_profiles c) (c_raw c) /\
+  option_map e_val (lookup2 (c_view c) "sa" "k1") = Some "old" /\
+  option_map e_val (first_def (c_profiles c) (c_raw c) "sa" "k1") = Some "new".
+Proof. vm_compute. repeat split. discriminate. Qed.
+
+Definition w_fb : config := run all_off [OUpdate (Upd "sb" "k1" "f" None "s" []) true] (empty_config "fb").
+Definition w_fbsect_cfg : config := run all_off [OFallback (Some w_fb)] (empty_config "cfg").
+
+Lemma fbsect_witness :
+  get q_only_fbsect w_fbsect_cfg "k1" None (Some "sa") (Some "dflt") = Err ErrSection /\
+  get all_off w_fbsect_cfg "k1" None (Some "sa") (Some "dflt") = Ok (mk_entry "k1" "dflt" "default value").
+Proof. vm_compute. split; reflexivity. Qed.
+
+Definition w_mkey_cfg : config :=
+  run all_off [OUpdate (Upd "sa" "k1" "bar" None "s" []) true; OMaster (Some "sa")] (empty_config "cfg").
+
+Lemma mkey_witness :
+  res_map e_key (get q_only_mkey w_mkey_cfg "k2" None (Some "k1") (Some "dflt")) = Ok "k1" /\
+  get all_off w_mkey_cfg "k2" None (Some "k1") (Some "dflt") = Ok (mk_entry "k2" "dflt" "default value").
+Proof. vm_compute. split; reflexivity. Qed.
+
+Lemma fmt_witness :
+  py_replace q_only_fmt [] None "{x:>8}" = Ok "  {x:>8}" /\
+  py_replace q_only_fmt [] None "{x:%Y}" = Err ErrValue /\
+  py_replace all_off [] None "{x:>8}" = Ok "{x:>8}".
+Proof. vm_compute. repeat split; reflexivity. Qed.
